@@ -41,16 +41,90 @@ func init() {
 		}
 	}}
 	profiles["sweep"] = profiles["sweepbase"]
+
+	// sweeproll: the same enumeration around the reconcile that replaces a finished
+	// pod in the middle of a partitioned rolling update: every pod at or above the
+	// partition is updated and Ready, a pod below it has just failed. A partial
+	// reconcile there (delete applied, create failed; crash in between; ...) must
+	// neither move the current revision nor bring the pod back at the update revision.
+	profiles["sweeprollbase"] = &Profile{Name: "sweeprollbase", Tweak: func(r *PRNG, c *Config) {
+		profiles["sweepbase"].Tweak(r, c)
+		c.Sets = c.Sets[:1]
+		sc := &c.Sets[0]
+		sc.Replicas = int32(r.Range(2, 4))
+		sc.Slots = nil
+		if r.Chance(0.3) {
+			sl := []string{"[0]", "[1]"}[r.Intn(2)]
+			sc.Slots = &sl
+		}
+		part := int32(r.Range(1, int(sc.Replicas)))
+		sc.Strategy, sc.HasRU, sc.Partition = "RollingUpdate", true, &part
+		sc.Paused = false
+		sc.Claims = 0
+		c.Graceful = false
+		c.Weights["template"] = 0
+		c.Weights["partition"] = 0
+		c.Weights["strategy"] = 0
+		c.Weights["pause"] = 0
+		c.Weights["worker"] = 60
+		c.Chaos = r.Range(12, 40)
+	}, Prefix: func(r *PRNG, c *Config) []Step {
+		sc := c.Sets[0]
+		slots := map[int32]bool{}
+		if sc.Slots != nil {
+			slots = ModelSlots(map[string]string{annSlots: *sc.Slots})
+		}
+		out := []Step{{K: "mkset", A: 0}}
+		D := Desired(sc.Replicas, slots)
+		for _, o := range D {
+			out = append(out, Step{K: "mkpod", A: 0, B: int(o), C: ownThis | 3<<2, D: sc.Template})
+		}
+		// the pod that fails: one below the partition (pod index = rank among the names)
+		below := 0
+		for i, o := range D {
+			if o < *sc.Partition {
+				below = i
+			}
+		}
+		fail := r.Intn(below + 1)
+		out = append(out, Step{K: "boot"}, Step{K: "settle"},
+			Step{K: "template", A: 0, B: (sc.Template + 1 + r.Intn(3)) % 4}, Step{K: "settle"},
+			Step{K: "kube", A: fail, B: []int{3, 4}[r.Intn(2)]}, Step{K: "deliverall"})
+		return out
+	}}
+	profiles["sweeproll"] = profiles["sweeprollbase"]
+
+	// rollfail: the same scenario with faults and crashes drawn by the scheduler
+	// instead of enumerated (cheap enough for the exploration-level checks)
+	profiles["rollfail"] = &Profile{Name: "rollfail", Tweak: func(r *PRNG, c *Config) {
+		profiles["sweeprollbase"].Tweak(r, c)
+		c.Dialect = "truthful"
+		c.FaultPct = []int{20, 35, 50}[r.Intn(3)]
+		c.Weights["crash"] = 3
+		c.Weights["kube"] = 25
+		c.Chaos = r.Range(15, 60)
+	}, Prefix: profiles["sweeprollbase"].Prefix}
 }
+
+// sweepBaseOf maps a sweep profile of a job to the profile of its base schedules.
+func sweepBaseOf(prof string) string {
+	if prof == "sweep" {
+		return "sweepbase"
+	}
+	return prof + "base"
+}
+
+// isSweepProfile: job profiles that stand for a fault enumeration.
+func isSweepProfile(prof string) bool { return prof == "sweep" || prof == "sweeproll" }
 
 var sweepPure = []int{FBefore500, FBeforeTimeout, FAfter500, FAfterTimeout}
 var sweepRace = []int{FRace, FRace2}
 
 // SweepPlans expands one seed into the fault plans of up to two of its reconciles.
-func SweepPlans(t *testing.T, seed uint64) []RunSpec {
-	base := RunOne(t, RunSpec{Seed: seed, Profile: "sweepbase", NoQuiesce: true})
+func SweepPlans(t *testing.T, seed uint64, baseProfile string) []RunSpec {
+	base := RunOne(t, RunSpec{Seed: seed, Profile: baseProfile, NoQuiesce: true})
 	if base.Harness != "" {
-		return []RunSpec{{Seed: seed, Profile: "sweepbase"}}
+		return []RunSpec{{Seed: seed, Profile: baseProfile}}
 	}
 	// reconciles by id -> their release steps
 	byRec := map[int][]RelInfo{}
@@ -80,13 +154,16 @@ func SweepPlans(t *testing.T, seed uint64) []RunSpec {
 	var specs []RunSpec
 	for k := 0; k < 2 && len(cands) > 0; k++ {
 		i := r.Intn(len(cands))
+		if k == 0 && baseProfile == "sweeprollbase" {
+			i = 0 // the first writing reconcile after the scenario prefix is the one aimed at
+		}
 		id := cands[i]
 		cands = append(cands[:i], cands[i+1:]...)
 		rs := byRec[id]
 		end := rs[len(rs)-1].Step // 1-based step number of the last release
 		ref := append([]Step{}, base.Steps[:end]...)
 		mk := func(pure bool, steps []Step) {
-			specs = append(specs, RunSpec{Seed: seed, Profile: "sweepbase", Config: base.Config, Steps: steps, RefSteps: ref, PureFault: pure})
+			specs = append(specs, RunSpec{Seed: seed, Profile: baseProfile, Config: base.Config, Steps: steps, RefSteps: ref, PureFault: pure})
 		}
 		// The faulted schedule keeps every other step of the reference (user edits,
 		// kubelet and cache actions between the calls of the reconcile): only the
@@ -127,7 +204,7 @@ func SweepPlans(t *testing.T, seed uint64) []RunSpec {
 		}
 	}
 	if len(specs) == 0 {
-		specs = append(specs, RunSpec{Seed: seed, Profile: "sweepbase", Config: base.Config, Steps: base.Steps})
+		specs = append(specs, RunSpec{Seed: seed, Profile: baseProfile, Config: base.Config, Steps: base.Steps})
 	}
 	return specs
 }
